@@ -1539,6 +1539,7 @@ class Pregex():
         :param str source: The path pointing to the file from which the text \
             is to be extracted.
         '''
-        with open(file=source, mode='r', encoding='utf-8') as f:
+        # newline='' : no translation of line endings, the text is the file's content.
+        with open(file=source, mode='r', encoding='utf-8', newline='') as f:
             text = f.read()
         return text
